@@ -49,7 +49,7 @@ def text_spelled(f, fa, fb):
     return text(f)
 
 
-def h_grid(f, N, P, mode='offline', spell=None, defs=None, reparse=None):
+def h_grid(f, N, P, mode='offline', spell=None, defs=None, reparse=None, reconf=None):
     main = T(f)
     if defs:
         from .c09 import inline
@@ -70,7 +70,18 @@ def h_grid(f, N, P, mode='offline', spell=None, defs=None, reparse=None):
             # the bounds of f (in samples) written with explicit/default units; one sample every `scale` default units
             fa, fb, unit, scale, per = spell
             txt = 'out = ' + text_spelled(f, fa, fb)
-            sd = dt.make_spec('offline~', txt, vs, unit=unit, period=tuple(per) + (0.1,))
+            if reconf:
+                # the discrete-time object was used under ANOTHER sampling period before (same recording tool, another log): it is
+                # re-configured for this trace and must then agree with the dense-time monitor like a fresh object
+                import rtamt
+                sd = dt.make_spec('offline~', txt, vs, unit=unit, period=tuple(reconf) + (0.1,))
+                try:
+                    dt.offline(sd, dt.trace(env, vs, N, prefix='old_'), N)
+                except rtamt.RTAMTException:
+                    pass
+                sd.set_sampling_period(*(tuple(per) + (0.1,)))
+            else:
+                sd = dt.make_spec('offline~', txt, vs, unit=unit, period=tuple(per) + (0.1,))
             disc = [p[1] for p in dt.offline(sd, w, N)]
             sc = ct.make_spec(mode, txt, vs, unit=unit)
             args = [[v, [[k * scale, w[v][k]] for k in range(N)]] for v in vs]
@@ -175,6 +186,13 @@ def obligations(tier, rng):
         for name, fa, fb, unit, scale, per in SP[2:5]:
             out.append(ob('C19', 'grid', 'units/offline/%s/%s/N=5' % (name, text_spelled(f, fa, fb)), f=f, N=5, P='1', spell=[fa, fb, unit, scale, list(per)],
                           max_paths=40000, wall=900))
+    # the discrete-time object was used under another sampling period before and is re-configured for this trace
+    for k in FR_UNT:
+        f = (k, X, 1, 2)
+        for name, fa, fb, unit, scale, per in [SP[0], SP[4], SP[5]]:
+            for old in ([(500, 'ms')] if quick else [(500, 'ms'), (2, 's'), (250, 'ms')]):
+                out.append(ob('C19', 'grid', 'units-reconfigured/offline/%s/%s/was=%d%s' % (name, text_spelled(f, fa, fb), old[0], old[1]), f=f, N=4, P='1', mode='offline',
+                              spell=[fa, fb, unit, scale, list(per)], reconf=list(old), max_paths=40000, wall=900))
     # several assertions in one text / a specification object parsed before with another formula
     Pv, Qv = ('var', 'p'), ('var', 'q')
     multi = [([['p', ('once_t', X, 0, 2)]], ('sub', ('eventually_t', Pv, 0, 2), Y)), ([['p', ('geq', X, ('const', 1.0))]], ('historically', Pv)),
